@@ -4,7 +4,7 @@ use crate::world::Container::*;
 use crate::world::{Opaque, Target, What};
 
 /// files scanned for `type X = <primitive>;`
-pub const ALIAS_FILES: &[&str] = &["board/src/board/constants.rs"];
+pub const ALIAS_FILES: &[&str] = &["board/src/board/constants.rs", "board/src/board/precalculated/magic.rs"];
 
 /// structs whose values are flattened into one parameter per field that is read (name, file)
 pub const FLAT_STRUCTS: &[(&str, &str)] = &[
@@ -133,9 +133,11 @@ pub const TARGETS: &[Target] = &[
     Target { module: "Table", file: TABLE, container: Impl("HashTable"), name: "get", what: PLAIN },
     Target { module: "Table", file: TABLE, container: Impl("HashTable"), name: "len", what: PLAIN },
     // ---- magic bitboards: index computation and table lookup (property C04)
+    Target { module: "Magic", file: MAGIC, container: Free, name: "MagicConfiguration", what: What::Struct { bits: true } },
     Target { module: "Magic", file: MAGIC, container: Free, name: "magic_hash", what: BITS },
     Target { module: "Magic", file: MAGIC, container: Impl("MagicConfiguration"), name: "hash", what: BITS },
     Target { module: "Magic", file: MAGIC, container: Impl("MagicConfiguration"), name: "get_attacks", what: BITS },
+    Target { module: "Magic", file: MAGIC, container: ImplTrait("UnsafeMagicsExt", "Magics"), name: "get_attacks", what: BITS },
     // ---- the packed move word: constants, getters, setters, predicates of `impl Move` (properties C02 / C03)
     cb!("NO_PIECE"), cb!("PAWN"), cb!("KNIGHT"), cb!("BISHOP"), cb!("ROOK"), cb!("QUEEN"), cb!("KING"),
     cb!("PIECE_MOVED_MASK"), cb!("PIECE_ATTACKED_MASK"), cb!("SELF_LOST_KING_SIDE_CASTLE_MASK"), cb!("SELF_LOST_QUEEN_SIDE_CASTLE_MASK"),
